@@ -1,5 +1,71 @@
-"""C17 - Lines connect their end points and stay on the ideal line  (metadata; generators live here and/or in props/C17_*.py parts)"""
+"""C17 - Lines connect their end points and stay on the ideal line."""
+from common import *
+
 CLAIMED = False   # set True by the owner once ./check C17 passes with real theorems
 LEVEL = 'proof'
 LEVEL_TEXT = 'TODO'
 LEVEL_NOTE = 'TODO'
+RULE = 'TODO'
+EXHAUSTIVE = {'quick': False, 'thorough': False}
+ASSUMPTIONS = []
+TRUSTED = []
+PARTIAL = []
+
+
+def grid_lines(R):
+    rr = range(-R, R + 1)
+    for x0 in rr:
+        for y0 in rr:
+            for x1 in rr:
+                for y1 in rr:
+                    yield (x0, y0, x1, y1)
+
+
+def long_line(rng, maxlen):
+    """random line whose major length is about maxlen, anywhere within +-2^20; all octants, with a share of
+    exact diagonals / axis-parallel / near-tie slopes (dmin = dmaj/2 exactly or +-1)"""
+    x0, y0 = rng.randrange(-2 ** 19, 2 ** 19), rng.randrange(-2 ** 19, 2 ** 19)
+    dmaj = rng.randrange(maxlen // 2, maxlen + 1)
+    k = rng.random()
+    if k < 0.1:
+        dmin = dmaj
+    elif k < 0.2:
+        dmin = 0
+    elif k < 0.4:
+        dmin = max(0, min(dmaj, dmaj // 2 + rng.randrange(-1, 2)))
+    elif k < 0.5:
+        dmin = max(0, dmaj - rng.randrange(0, 3))
+    elif k < 0.6:
+        dmin = min(dmaj, rng.randrange(0, 3))
+    else:
+        dmin = rng.randrange(0, dmaj + 1)
+    sx, sy = rng.choice([-1, 1]), rng.choice([-1, 1])
+    if rng.random() < 0.5:
+        return (x0, y0, x0 + sx * dmaj, y0 + sy * dmin)
+    return (x0, y0, x0 + sx * dmin, y0 + sy * dmaj)
+
+
+def cases(tier, rng):
+    R = 5 if tier == 'quick' else 9
+    for l in grid_lines(R):
+        yield J('line_points', *l)
+    n = 1500 if tier == 'quick' else 20000
+    for _ in range(n):
+        yield J('line_points', *long_line(rng, rng.choice([20, 60, 200])))
+        yield J('line_digest', *long_line(rng, rng.choice([1000, 5000, 40000])))
+    for _ in range(12 if tier == 'quick' else 120):
+        yield J('line_walk', *long_line(rng, 2 ** 20))
+    # the two extreme corners of the generator range
+    yield J('line_walk', -2 ** 20, -2 ** 20, 2 ** 20, 2 ** 20 - 1)
+    yield J('line_walk', 2 ** 20, -2 ** 20, -2 ** 20, 1)
+
+
+def search(tier, rng):
+    R = 5 if tier == 'quick' else 9
+    for l in grid_lines(R):
+        yield J('p_line', *l)
+    n = 3000 if tier == 'quick' else 40000
+    for _ in range(n):
+        yield J('p_line', *long_line(rng, rng.choice([20, 60, 200, 1000, 5000])))
+    for _ in range(20 if tier == 'quick' else 200):
+        yield J('p_line', *long_line(rng, 2 ** 20))
